@@ -126,7 +126,6 @@ func inGroupOf(p *Prog, fn *ssa.Function, roots ...*ssa.Function) bool {
 	return onlyUsedInGroup(p, fn, g)
 }
 
-
 // LoopInst is a loop of the evaluated function or of a new helper inlined
 // into it (one instance per inlined activation).
 type LoopInst struct {
